@@ -425,6 +425,17 @@ func cmdCheck(args []string) int {
 	for k := range usedT {
 		trusted = append(trusted, "trusted contract: "+k)
 	}
+	ap := map[string]bool{}
+	for _, r := range results {
+		if r.Ctx != nil {
+			for k := range r.Ctx.assumedPosts {
+				ap[k] = true
+			}
+		}
+	}
+	for k := range ap {
+		trusted = append(trusted, "assumed postcondition (not verified on the body): "+shortCallee(k))
+	}
 	sort.Strings(trusted)
 	base := []string{"Go type checker and go/ssa builder (golang.org/x/tools v0.29.0)", "SMT solvers z3 5.1.0 / z3 4.8.12 / cvc5 1.0.3 (raced; disagreement is a tool error)", "gvc VC generator (/verif/gvc)"}
 	trusted = append(base, trusted...)
